@@ -15,17 +15,19 @@ def _c(pid, technique, text, note):
 
 
 CHECKS = [
-    _c("C01", "Lean scanner model compared token-by-token with the real scanner + bounded-exhaustive no-panic/no-hang run of scan→parse→compile",
-       "The scanner is modelled in Lean (every index/slice a checked access) and compared with the real scanner on all strings of length ≤3 (≤4 thorough) over a 31-character alphabet, "
-       "token soup and programs; scan→parse→compile runs in-process under catch_unwind + watchdog on ≈250k texts (short strings, token sequences ≤3 over all token kinds, ≤5 over a core, "
-       "mutated programs, nesting to 64). The keyword / single / twin-character tables the model uses are regenerated from the source on every run.",
-       "Open obligations: scan_total (fuel bound + no panic, by induction), parse_no_panic/parse_fuel (parser model), compile_no_panic, gate. Until they are closed the level is the "
-       "model-correspondence + exhaustive search, reported as such in the evidence (obligations 0)."),
+    _c("C01", "Lean theorems on the scanner model (total: no panic, no fuel exhaustion, ends with Eof, for every input) tied token-by-token to the real scanner + bounded-exhaustive no-panic/no-hang run of scan→parse→compile",
+       "Kernel-checked for every input string: the scanner model (every index/slice of src/scanner/mod.rs a checked access that yields `panic`, every loop with fuel) never panics, every inner loop leaves at its "
+       "Rust exit condition, every call of next_token strictly advances the cursor, the token stream is finite and ends with the only Eof, line numbers are monotone and bounded by the newlines of the input. "
+       "The model is compared with the real scanner on all strings of length ≤3 (≤4 thorough) over a 31-character alphabet, token soup and programs; scan→parse→compile runs in-process under catch_unwind + "
+       "watchdog on ≈250k texts (short strings, token sequences ≤3 over all token kinds, ≤5 over a core, mutated programs, nesting to 64). The keyword / single / twin-character tables the model uses are regenerated from the source on every run.",
+       "Open obligations: parse_no_panic/parse_fuel (parser model), compile_no_panic beyond the core fragment; for parser and compiler the level is the exhaustive search."),
     _c("C02", "Lean reference semantics (big-step evaluator + static resolver) as executable spec/oracle; Lean VM model run on the real compiler's bytecode; differential run",
        "P2sh.Ref / P2sh.Static are the specification written from the property (evaluation order, lexical scoping, closures by value, globals by reference, static faults). Every generated "
        "program is run by the real pipeline and judged against the Lean reference (final value, observation array, runtime error + line, compile error + line, stack height 0). "
        "Independently the Lean VM model executes the REAL compiler's bytecode for every program and must agree with the real VM (value, observations, error line, stack height).",
-       "The universal compiler-correctness theorem (compile_sound_core) is open; the closed theorems this property rests on are those of C09 (operators), C06 (truthiness), C10 (maps), C04 (symbol table), C14 (codec)."),
+       "Kernel-checked for the core fragment (literals, all operators with the right-to-left < and <=, && ||, if/else expressions, global let and assignment, blocks, while loops): Core.compile_correct / sound_all / "
+       "compile_sound_core — every terminating run of the reference evaluation is reproduced by the compiled code from the empty stack back to the empty stack; the functional compiler is byte-exact with the real compiler "
+       "(op `core`, and `core2` for the REPL's carried state). Outside the fragment (functions, closures, arrays, maps, match, break/continue) the three-way differential run decides."),
     _c("C03", "Lean theorems over translator-generated PARSE_RULES/Precedence tables vs the documented table + min/full parenthesisation differential run",
        "Kernel-checked: every operator token's rule has the documented rank and associativity, the Pratt loop tests `<` for left and `≤` for right associativity, prefix operands parse at "
        "Unary, every token with precedence has an infix parser. The run renders every tree minimally (documented table) and fully parenthesised: the real parser must yield the same AST and "
@@ -40,7 +42,8 @@ CHECKS = [
        "Kernel-checked for all 64-bit operands: the two-comparison test the match template performs is interval membership (a..b excludes b, a..=b includes it); equality patterns use the negation "
        "of ==. Exhaustive tables (int/char/byte/string/bool domains, all ranges in the window, two-arm programs, kind pairs for the rejection rule), if/else-if chains over truthiness "
        "representatives, and generated nestings of if/match/labelled loops run through the real pipeline against P2sh.Ref/P2sh.Static.",
-       "Open: the bytecode-level template lemmas (inside compile_sound_core), mixed_arms_rejected as a theorem."),
+       "Also kernel-checked: a while loop leaves exactly when its condition is falsey and otherwise runs its body and starts again, and the compiled loop (condition, JumpIfFalse, body, Jump back) reproduces every terminating run (while_compiled); if/else evaluates exactly one branch (core fragment). "
+       "Open: the match template at the bytecode level, break/continue, mixed_arms_rejected as a theorem."),
     _c("C06", "Lean theorem falsey_table (is_falsey = documented table for every value) + exhaustive differential run of is_falsey / ! on the real code",
        "Kernel-checked: Object::is_falsey as modelled equals the documented falsey table for every value of every kind; ! yields true exactly on it and never fails. Compared with the real "
        "is_falsey and Bang opcode on representatives of every kind and random values; the if/while/&&/|| positions are exercised through the language-level engine (C02/C05).",
@@ -48,7 +51,8 @@ CHECKS = [
     _c("C07", "operand-stack height of the real VM after every generated program (hook VM::verif_sp) against the reference semantics; long loops beyond STACK_SIZE",
        "Statement shapes incl. empty match arms, branches ending in nested blocks, break/continue in every position; the real VM's height after the run must be 0 and 5000-iteration loops must "
        "not overflow. The reference semantics supplies values and control flow (break/continue leaving an expression).",
-       "Known finding K1 (break/continue with pending operands leaks a slot) is listed in known_findings.json. Open: Bcv.sound_heights, compile_balanced (no closed theorem yet: obligations 0)."),
+       "Kernel-checked for the core fragment (let, expression statements, blocks, while loops): every statement's code runs from any stack back to the same stack, a loop leaves with the stack it entered with whatever the number of iterations (loop_constant_stack). "
+       "Known finding K1 (break/continue with pending operands leaks a slot) is listed in known_findings.json. Open: Bcv.sound_heights; compile_balanced for match, loop, break/continue, functions."),
     _c("C08", "Lean theorems (no operator application panics; /0 and %0 are errors) + no-panic oracle over operators, builtins, format strings and programs in-process",
        "Kernel-checked: for every operator and every pair of values the model raises no panic (the only excluded request: repetition beyond 16 MiB), unary operators likewise, /0 and %0 are runtime "
        "errors. ≈130k cases run under catch_unwind + watchdog: every operator × kind pair × boundary values, every in-process-safe builtin × arities × kinds, format strings incl. malformed, "
@@ -58,7 +62,8 @@ CHECKS = [
        "Kernel-checked: integer + - * / % and unary - ~ equal exact integer arithmetic reduced modulo 2^64 for all operands, /0 and %0 are runtime errors for every numeric kind, no operator "
        "application panics, the error rows (arrays under non-+, booleans under ordering, negative repetition), integer relational consistency with ==. Spec.Ops is the oracle for every "
        "operator × every ordered pair of operand kinds × boundary pools + random 64-bit operands through the real VM.",
-       "Open: full-table binary_spec (shifts and byte arithmetic covered by the exhaustive oracle run only). Float results = the IEEE primitive applied to the converted operands (IEEE trusted)."),
+       "binary_spec is the whole table: every operator x every pair of operand values (shifts modulo 64, bytes modulo 2^8, integer/byte mixes, float rows incl. the IEEE order laws proved on Lean's Float model, string/char order and concatenation, repetition, element-wise array equality). "
+       "Two hypotheses remain: the property's memory exclusion (hugeRepeat) and convZeroRow (float / int, float % int: Int64.toFloat is an opaque constant of Lean, so `(b == 0) = (b.toFloat == 0.0)` cannot be derived; covered by the differential run)."),
     _c("C10", "Lean refinement proof (hash-table model refines an association list under ==) + differential run on a real HMap",
        "Kernel-checked: keys equal under == feed the same byte stream to the hasher (one IEEE fact as hypothesis; none for float-free keys), hence get/insert equal the association-list spec, "
        "the pairwise law, and refinement for every sequence of inserts and lookups. The real `impl Hash` is observed with a recording Hasher; a real HMap is driven through insert/get/contains/len, m[k], m[k]=v.",
@@ -66,7 +71,7 @@ CHECKS = [
     _c("C11", "Lean theorems (UTF-8, chars/join, len round trips; arity contract) + every builtin × arity × kind differential run through the real VM",
        "Kernel-checked: decode_utf8(encode_utf8 s) = s, len(encode_utf8 s) = len s, join(chars s) = s for every string; is_error total; one-argument builtins reject every other arity with an error. "
        "Spec.Builtins (from the documentation) is the oracle for 23 pure builtins × arity 0..4 × kinds × boundary/random values (scalar-value boundaries, invalid UTF-8 classes, sort on every comparability class).",
-       "Known findings: char/byte reject documented kinds (string, boolean). Open: builtin_contract, int_str, sort_sorted_perm; float(str x) not modelled (tested only)."),
+       "Also kernel-checked: int(str(n)) = n for every 64-bit integer (int_str). Known findings: char/byte reject documented kinds (string, boolean). Open: builtin_contract (whole table), sort_sorted_perm; float(str x) not modelled (tested only)."),
     _c("C12", "Lean theorems on the format state-machine model + grammar-derived differential run against the reference renderer",
        "Kernel-checked: literal text renders as itself for every brace-free string (model and reference parser), the print family returns the byte length written (+1 for ln), a missing argument is an error. "
        "Spec.Format (documented grammar) is the oracle for all one-item strings over index/fill/justify/width/radix sets × argument lists, random multi-item strings, malformed specifiers (no-crash).",
@@ -103,7 +108,8 @@ CHECKS = [
     _c("C23", "Lean theorems on the REPL state-carrying model + end-to-end histories through the real run_prompt (scripted-line hook) against the folded reference semantics",
        "Kernel-checked: a rejected line leaves the carried state unchanged, histories compose (state after ls1++ls2 = fold), rejected lines can be skipped. Random histories (definitions, redefinitions, "
        "functions, parse/compile errors incl. inside function bodies, runtime failures) run through the real loop; per-line program output and diagnostics class must equal ReplSpec.",
-       "Known finding: names defined by the unexecuted tail of a line that failed at run time are already bound. Open: accepted_line_composes at the compiler/VM level."),
+       "Also kernel-checked at the compiler/VM level for the core fragment (accepted_lines_compose): a second line compiled at byte 0 in the carried state (constants appended to the pool, globals kept) ends with the globals of the one program line1 ++ line2; "
+       "the functional compiler is byte-exact with Compiler::new_with_state on generated line pairs (op core2). Known finding: names defined by the unexecuted tail of a line that failed at run time are already bound. Open: the same for lines defining functions."),
     _c("C24", "Lean theorems on the model of main/CliArgs/run_buf + end-to-end runs of the binary in script, -c and shebang modes",
        "Kernel-checked: -c prints exactly the script's output plus the final value's line (only when the program ran to its end with a non-null value), diagnostics ⇒ nothing printed, argv per mode. "
        "Generated programs × argument vectors × {file, -c, #! file}: stdout relation, argv as seen by the program, shebang-insensitivity (line numbers shifted), the gate.",
